@@ -77,6 +77,13 @@ def make_backend(name, w, yield_events=False):
         fs = memfs.MemFS(complete=complete)
         memfs.bind(w, fs, chunk_size=64)
         return ds.DiskStorage('/q/env', '/q/meta', '/q/tmp'), fs
+    if name == 'disk-onedir':
+        # envelope and meta files in one directory (a legal configuration: the two file kinds differ by their suffix)
+        import slimta.diskstorage as ds
+        from engine import memfs
+        fs = memfs.MemFS(dirs=('/q/all', '/q/tmp'))
+        memfs.bind(w, fs, chunk_size=64)
+        return ds.DiskStorage('/q/all', '/q/all', '/q/tmp'), fs
     if name == 'redis':
         import slimta.redisstorage as rs
         from slimta.queue import QueueStorage
@@ -392,6 +399,26 @@ def load_overlap_case(backend, opB, res):
                                     % (opB, l, n, listing)))
                     elif (T0, ids[l]) not in listing:
                         bad.append((list(ch.choices), 'load() overlapping %r: message %s listed with a wrong timestamp: %r' % (opB, l, listing)))
+            # whatever the overlap, the operation itself must have had its effect: afterwards the store equals the reference
+            w.loop.chooser = None
+            after = {}
+
+            def ob():
+                after.update(observe(st, ids))
+            gevent.spawn(ob)
+            w.run_until_quiescent()
+            ref = RefStore()
+            for l in ('A', 'B', 'C'):
+                ref.apply(('write', l))
+            if not (isinstance(rs.get('op'), tuple) and rs['op'] and rs['op'][0] == 'raised'):
+                ref.apply(opB)
+                for l in sorted(ids):
+                    exp = ref.expect_get(l) if l in ref.msgs or l in ref.removed else None
+                    got = after.get(l)
+                    if exp is not None and exp != 'gone' and got != exp:
+                        bad.append((list(ch.choices), 'after %r overlapped a load(): get(%s) = %r, reference %r' % (opB, l, got if not isinstance(got, tuple) or len(got) != 4 else got[2:], exp[2:])))
+            else:
+                bad.append((list(ch.choices), '%r overlapping a load() raised %r' % (opB, rs['op'])))
         return out
     st = explore(run, d=3, dd=None, merge=False, max_exec=20000, on_result=lambda ch, o: finals.add(o))
     res.evaluations += st.executions
@@ -503,6 +530,7 @@ def configs(tier, seed):
     depth = 4 if tier == 'quick' else 5
     for b in ('dict', 'shelf', 'disk', 'redis', 'cloud'):
         cfgs.append({'mode': 'bfs', 'backend': b, 'depth': depth})
+    cfgs.append({'mode': 'bfs', 'backend': 'disk-onedir', 'depth': 2})
     if tier == 'quick':
         for a, bb in ((('inc', 'A'), ('ts', 'B', T2)), (('write', 'A'), ('write', 'B')), (('dlv', 'A', (0,)), ('rm', 'B')), (('rm', 'A'), ('inc', 'B'))):
             cfgs.append({'mode': 'overlap', 'backend': 'disk', 'a': list(a), 'b': list(bb)})
